@@ -533,14 +533,11 @@ def r2_9(ctx, rc):
     # (i) a failing write is compensated on every path to the raise exit
     first = Q.reach_flags(sg, [sg.entry])
     rexit = lambda x: x.kind == 'raise_exit'
+    commit = N['commit'].qualname
     for w in writes:
-        vals = sorted({st for (n, st) in first if n == w.id})
+        vals = Q.flag_valuations_at(sg, first, w.id)
         bad = None
         for st in vals:
-            excs = [d for d, l in w.succ
-                    if isinstance(l, tuple) and l[0] == 'exc']
-            # also: the write completed and a later statement fails
-            commit = N['commit'].qualname
             seen = Q.reach_flags(
                 sg, [w.id], init=dict(st),
                 avoid=lambda x: removes_cache(x) or Q.is_call(x, commit))
